@@ -378,6 +378,76 @@ Proof.
   destruct H as (_ & Hl & Hseen & _). split; [exact Hl|exact Hseen].
 Qed.
 
+(** the time-ordered log of all draws under the lock is the generator's stream (no draw lost, none handed
+    out twice), every thread holds exactly its own sub-sequence of it, and whenever the lock is free the
+    shared state is the stream position *)
+Theorem locked_log_is_stream (seed : G) (progs sched : list nat) :
+  let m := run Locked (init seed progs) sched in
+  map snd (log m) = stream (length (log m)) seed /\
+  (forall t th, nth_error (threads m) t = Some th -> seen th = project t (log m)) /\
+  glob m = pow (length (log m)) seed.
+Proof.
+  intros m. assert (H : LInv seed m) by (apply locked_run_inv, init_LInv).
+  destruct H as (Hg & Hl & Hseen & _). repeat split; assumption.
+Qed.
+
+(** the lock always names an existing thread that is in the middle of a draw *)
+Definition HInv (m : machine) : Prop :=
+  forall h, lock m = Some h -> exists th, nth_error (threads m) h = Some th /\ ph th <> Idle.
+
+Lemma holder_mstep_inv (m : machine) t m' : HInv m -> mstep Locked m t = Some m' -> HInv m'.
+Proof.
+  intros HI Hs. unfold Model.mstep in Hs.
+  destruct (nth_error (threads m) t) as [th|] eqn:Et; [|discriminate].
+  pose proof (nth_error_lt _ _ _ Et) as Hlt.
+  assert (Hkeep : forall (x : thread) h, ph x <> Idle -> (exists th0, nth_error (threads m) h = Some th0 /\ ph th0 <> Idle) ->
+                  exists th0, nth_error (upd (threads m) t x) h = Some th0 /\ ph th0 <> Idle).
+  { intros x h Hx (th0 & Hh & Hp). destruct (Nat.eq_dec t h) as [->|Hne].
+    - exists x. split; [apply nth_error_upd_eq; exact Hlt|exact Hx].
+    - exists th0. split; [rewrite nth_error_upd_neq by (exact Hlt || exact Hne); exact Hh|exact Hp]. }
+  destruct (ph th) as [|v| |] eqn:Eph.
+  - destruct (todo th) as [|k]; [discriminate|]. destruct (lock m) eqn:El; [discriminate|]. injection Hs as <-.
+    intros h Hh. cbn [lock] in Hh. injection Hh as <-. cbn [threads].
+    eexists. split; [apply nth_error_upd_eq; exact Hlt|cbn [ph]; discriminate].
+  - injection Hs as <-. intros h Hh. unfold finish in *. cbn [lock threads] in *.
+    apply Hkeep; [cbn [ph]; discriminate|exact (HI h Hh)].
+  - injection Hs as <-. intros h Hh. unfold set_thread in *. cbn [lock threads] in *.
+    apply Hkeep; [cbn [ph]; discriminate|exact (HI h Hh)].
+  - injection Hs as <-. intros h Hh. cbn [lock] in Hh. discriminate.
+Qed.
+
+Lemma holder_run_inv sched : forall m : machine, HInv m -> HInv (run Locked m sched).
+Proof.
+  induction sched as [|t sched IH]; intros m H; [exact H|].
+  cbn [Model.run fold_left]. apply IH. unfold Model.sstep.
+  destruct (mstep Locked m t) as [m'|] eqn:E; [|exact H]. eapply holder_mstep_inv; eauto.
+Qed.
+
+(** no deadlock: in every reachable state, if some thread still has something to do (a draw to start or a
+    draw in progress), then some thread is enabled - the holder of the lock can always go on, and when the
+    lock is free every thread that has a draw to start can take it *)
+Definition busy (th : thread) : Prop := todo th <> 0 \/ ph th <> Idle.
+
+Theorem locked_no_deadlock (seed : G) (progs sched : list nat) :
+  let m := run Locked (init seed progs) sched in
+  (exists t th, nth_error (threads m) t = Some th /\ busy th) ->
+  exists t m', mstep Locked m t = Some m'.
+Proof.
+  intros m (t & th & Ht & Hb).
+  assert (H : LInv seed m) by (apply locked_run_inv, init_LInv).
+  assert (HH : HInv m) by (apply holder_run_inv; intros h Hh; cbn [init lock] in Hh; discriminate).
+  destruct (lock m) as [h|] eqn:El.
+  - destruct (HH h El) as (thh & Hh & Hp).
+    exists h. unfold Model.mstep. rewrite Hh.
+    destruct (ph thh) eqn:E; [contradiction| | |]; eexists; reflexivity.
+  - assert (Hidle : ph th = Idle).
+    { destruct (ph th) eqn:E; [reflexivity| | |];
+        (assert (Hl : lock m = Some t) by (apply (linv_holder seed m t th H Ht); rewrite E; discriminate)); congruence. }
+    destruct Hb as [Hb|Hb]; [|contradiction].
+    exists t. unfold Model.mstep. rewrite Ht, Hidle, El.
+    destruct (todo th) as [|k]; [contradiction|]. eexists; reflexivity.
+Qed.
+
 (** ** the racy discipline: a data race is reachable with two threads and one scheduling step *)
 Theorem racy_race_reachable (seed : G) : race Racy (run Racy (init seed [1; 1]) [0]) = true.
 Proof. reflexivity. Qed.
